@@ -256,6 +256,12 @@ bool Plan::NodeFinished(Node* node, string* err) {
 
 bool Plan::EdgeMaybeReady(map<Edge*, Want>::iterator want_e, string* err) {
   Edge* edge = want_e->first;
+  // An edge whose dyndep file has not been loaded yet is not ready, even when
+  // a re-scan has already found the producer of that file clean: the file is
+  // loaded when the producer is checked off, and the edge is looked at again
+  // then.
+  if (edge->dyndep_ && edge->dyndep_->dyndep_pending())
+    return true;
   if (edge->AllInputsReady()) {
     if (want_e->second != kWantNothing) {
       ScheduleWork(want_e);
@@ -491,6 +497,12 @@ void Plan::UnmarkDependents(const Node* node, set<Node*>* dependents) {
 
     map<Edge*, Want>::iterator want_e = want_.find(edge);
     if (want_e == want_.end())
+      continue;
+
+    // An edge that has been started is not scanned again: nothing learned now
+    // can change it, and a re-scan would declare its outputs ready while its
+    // command is still running.
+    if (want_e->second == kWantToFinish)
       continue;
 
     if (edge->mark_ != Edge::VisitNone) {
